@@ -183,7 +183,8 @@ def run_case(case: Case):
         recs.append(Rec(f"{case.name}:cover.pre_satisfiable", "proved" if v.status == "refuted" else ("refuted" if v.status == "proved" else "unknown"),
                         v.backend, v.time, "precondition/assumptions must be satisfiable (vacuity guard)"))
     stats = {"interp_s": round(t_interp, 3), "stmts": it.stats.get("stmts", 0), "feasibility_queries": it.stats.get("feasibility_queries", 0),
-             "raise_sites": out.raise_sites()[:6]}
+             "raise_sites": out.raise_sites()[:6],
+             "native_raise_sites": [(r.etype, r.where, r.msg[:80]) for r in it.raised if getattr(r, "native", False)][:6]}
     # canary: a deliberately false postcondition must be refuted, with a counterexample that replays natively
     if case.canary is not None:
         try:
